@@ -32,6 +32,23 @@ CHECKS = {
    note=LANG_NOTE),
 }
 
+CFG_NOTE = ("Trusted base: Go toolchain; the small reference functions in the harness (transitive closure + cycle test / doublestar.Match over a full walk / nearest-enclosing search); tmpfs semantics. "
+            "Every case is an execution of the real code built from /repo's working tree in a sandbox under /dev/shm as uid nobody; no model.")
+CHECKS.update({
+ "C03": dict(engine="cfgmc-c03", cat="model_checking", ref="§2.4, §3 C03",
+   technique="exhaustive enumeration of task graphs x request lists x map-iteration orders (controlled-iteration overlay of the dag package) executed on the real SpokFile.Run, against a closure/cycle reference",
+   text="Every digraph on 1-3 vertices incl. self-loops (thorough: also all 65536 on 4 vertices, each with one failing task for <=3) x every request list x every iteration order the topological sort may meet (explicit choice points instead of Go's map randomisation), plus undefined names at depth 1/2, duplicate definitions and families up to 8 vertices. The run must be exactly the closure, once each, dependencies first, and bad graphs must be errors that run nothing.",
+   note=CFG_NOTE + " Map iteration order is modelled as an arbitrary permutation chosen by the explorer (superset of what the Go runtime does)."),
+ "C05": dict(engine="cfgmc-c05", cat="model_checking", ref="§2.4, §3 C05",
+   technique="exhaustive enumeration of directory trees (all subsets of a path pool) x glob patterns, expanded by the real code via file.New/Run/Globs, against a reference matcher over a full walk",
+   text="Every subset of a 10-path pool (thorough 13) incl. hidden files/dirs at top level and nested x 20 (30) star patterns, each expanded three times (fresh, with .spok present, same SpokFile again); the regular files denoted must equal the reference exactly.",
+   note=CFG_NOTE + " doublestar.Match is taken as the meaning of a pattern; patterns where Match and GlobWalk disagree inside the library (*/**) are left out."),
+ "C17": dict(engine="cfgmc-c17", cat="model_checking", ref="§2.4, §3 C17",
+   technique="exhaustive enumeration of directory chains x start x stop executed on the real file.Find, with a deterministic non-termination detector",
+   text="All 12^4 chains of depth 4 x 4 start levels x 5 stops (each level, unrelated directory) = 414720 Find calls (thorough: doubled with chain names sorting after 'spokfile'); a third visit to the same directory is a non-termination verdict. For start at/below stop the answer is fully determined; otherwise termination and nearest-at-or-above-start are required.",
+   note=CFG_NOTE),
+})
+
 NOT_YET = {}
 
 ALL = ["C%02d" % i for i in range(1, 21)]
@@ -69,6 +86,8 @@ def main():
         "engines": [
             {"name": "langmc", "path": "harness/cmd/mc/langmc.go, harness/internal/lang", "serves_properties": ["C06", "C07", "C08", "C11", "C15", "C16"],
              "kind_free_text": "bounded-exhaustive enumeration of lexer/parser/formatter inputs executed on the real code in crash-isolated workers"},
+            {"name": "cfgmc", "path": "harness/cmd/mc/c03.go c05.go c17.go", "serves_properties": ["C03", "C05", "C17"],
+             "kind_free_text": "exhaustive enumeration of small configuration universes (graphs x requests x iteration orders, trees x patterns, chains x start x stop) executed on the real code against reference functions"},
         ],
         "checks": checks,
         "not_applicable": na,
